@@ -883,4 +883,241 @@ theorem mem_squash (t : UnitTrace) (u : String) :
         · exact .inr h
   exact key t.withTarget _
 
+/-! ## D. what a list of writes leaves in the trace -/
+
+/-- the unit id a write registers -/
+def TOp.unit? : TOp → Option String
+  | .addWithTarget _ u => some u
+  | .overrideWithTarget _ u => some u
+  | _ => none
+
+/-- the rule id a write records -/
+def TOp.rule? : TOp → Option RuleId
+  | .ruleId id => some id
+  | _ => none
+
+theorem mem_wtAdd (m : List (String × List String)) (target u : String) (e : String × List String)
+    (x : String) (he : e ∈ UnitTrace.wtAdd m target u) (hx : x ∈ e.2) :
+    x = u ∨ ∃ e' ∈ m, x ∈ e'.2 := by
+  unfold UnitTrace.wtAdd at he
+  split at he
+  · obtain ⟨e0, he0, rfl⟩ := List.mem_map.mp he
+    by_cases h : (e0.1 == target) = true
+    · simp only [h, if_true] at hx
+      rcases (mem_sInsert _ _ _).mp hx with h' | h'
+      · exact .inr ⟨e0, he0, h'⟩
+      · exact .inl h'
+    · simp only [h, Bool.false_eq_true, if_false] at hx
+      exact .inr ⟨e0, he0, hx⟩
+  · rcases List.mem_append.mp he with h | h
+    · exact .inr ⟨e, h, hx⟩
+    · simp only [List.mem_singleton] at h
+      subst h
+      simp only [List.mem_singleton] at hx
+      exact .inl hx
+
+theorem mem_wtOverride (m : List (String × List String)) (target u : String) (e : String × List String)
+    (x : String) (he : e ∈ UnitTrace.wtOverride m target u) (hx : x ∈ e.2) :
+    x = u ∨ ∃ e' ∈ m, x ∈ e'.2 := by
+  rcases mem_wtAdd _ target u e x he hx with h | ⟨e', he', hx'⟩
+  · exact .inl h
+  · exact .inr ⟨e', (List.mem_filter.mp he').1, hx'⟩
+
+theorem apply_unitIdsApplied (t : UnitTrace) (op : TOp) : (t.apply op).unitIdsApplied = t.unitIdsApplied := by
+  cases op <;> rfl
+
+theorem applyAll_unitIdsApplied (t : UnitTrace) (ops : List TOp) :
+    (t.applyAll ops).unitIdsApplied = t.unitIdsApplied := by
+  induction ops generalizing t with
+  | nil => rfl
+  | cons op rest ih =>
+    show ((t.apply op).applyAll rest).unitIdsApplied = _
+    rw [ih, apply_unitIdsApplied]
+
+theorem apply_units (P : String → Prop) (t : UnitTrace) (op : TOp)
+    (hop : ∀ u, op.unit? = some u → P u) (hin : ∀ e ∈ t.withTarget, ∀ x ∈ e.2, P x) :
+    ∀ e ∈ (t.apply op).withTarget, ∀ x ∈ e.2, P x := by
+  intro e he x hx
+  cases op with
+  | ruleId id => exact hin e he x hx
+  | value k v => exact hin e he x hx
+  | addWithTarget target u =>
+    rcases mem_wtAdd _ target u e x he hx with h | ⟨e', he', hx'⟩
+    · subst h; exact hop x rfl
+    · exact hin e' he' x hx'
+  | overrideWithTarget target u =>
+    rcases mem_wtOverride _ target u e x he hx with h | ⟨e', he', hx'⟩
+    · subst h; exact hop x rfl
+    · exact hin e' he' x hx'
+
+theorem applyAll_units (P : String → Prop) (ops : List TOp) (t : UnitTrace)
+    (hop : ∀ op ∈ ops, ∀ u, op.unit? = some u → P u) (hin : ∀ e ∈ t.withTarget, ∀ x ∈ e.2, P x) :
+    ∀ e ∈ (t.applyAll ops).withTarget, ∀ x ∈ e.2, P x := by
+  induction ops generalizing t with
+  | nil => exact hin
+  | cons op rest ih =>
+    show ∀ e ∈ ((t.apply op).applyAll rest).withTarget, _
+    exact ih _ (fun o ho => hop o (List.mem_cons_of_mem _ ho))
+      (apply_units P t op (hop op (by simp)) hin)
+
+/-- Every unit id applied by `squash` after a list of writes on a fresh trace was written by one of them. -/
+theorem squash_units (ops : List TOp) (u : String)
+    (h : u ∈ (UnitTrace.empty.applyAll ops).squash.unitIdsApplied) : ∃ op ∈ ops, op.unit? = some u := by
+  rcases (mem_squash _ u).mp h with h | ⟨e, he, hx⟩
+  · rw [applyAll_unitIdsApplied] at h
+    cases h
+  · exact applyAll_units (fun x => ∃ op ∈ ops, op.unit? = some x) ops UnitTrace.empty
+      (fun op hop x hx => ⟨op, hop, hx⟩) (fun e he => by cases he) e he u hx
+
+/-- The recorded rule ids: the `LinkedHashSet` of the rule-id writes, in order. -/
+theorem applyAll_ruleIds (ops : List TOp) (t : UnitTrace) :
+    (t.applyAll ops).ruleIdsApplied = (ops.filterMap TOp.rule?).foldl lhsInsert t.ruleIdsApplied := by
+  induction ops generalizing t with
+  | nil => rfl
+  | cons op rest ih =>
+    show ((t.apply op).applyAll rest).ruleIdsApplied = _
+    rw [ih]
+    cases op <;> rfl
+
+/-! ## E. which unit ids each stage can write -/
+
+theorem headerUnitOps_units (add : Bool) (f : HeaderFilter) (v : String) (op : TOp) (u : String)
+    (hop : op ∈ headerUnitOps add f v) (hu : op.unit? = some u) : f.id = some u := by
+  unfold headerUnitOps at hop
+  cases hid : f.id with
+  | none => simp [hid] at hop
+  | some id =>
+    simp only [hid, List.mem_cons] at hop
+    rcases hop with rfl | hop
+    · cases hu
+    · cases hth : f.targetHash with
+      | none => simp [hth] at hop
+      | some th =>
+        simp only [hth, List.mem_singleton] at hop
+        subst hop
+        cases add <;> simp_all [TOp.unit?]
+
+section
+variable (lower : String → String)
+
+theorem actOps_units (f : HeaderFilter) (a : Rio.Header.Act) (hs : List Rio.Header.Header) (op : TOp)
+    (u : String) (hop : op ∈ actOps lower f a hs) (hu : op.unit? = some u) : f.id = some u := by
+  cases a with
+  | add n v => exact headerUnitOps_units true f f.value op u hop hu
+  | remove n => exact headerUnitOps_units false f "" op u hop hu
+  | replace n v =>
+    simp only [actOps, List.mem_flatMap] at hop
+    obtain ⟨_, _, h⟩ := hop
+    exact headerUnitOps_units false f f.value op u h hu
+  | override n v => exact headerUnitOps_units false f f.value op u hop hu
+  | default n v =>
+    simp only [actOps] at hop
+    split at hop
+    · exact headerUnitOps_units true f f.value op u hop hu
+    · cases hop
+
+theorem pipelineOps_units (l : List (HeaderFilter × Rio.Header.Act)) (hs : List Rio.Header.Header)
+    (op : TOp) (u : String) (hop : op ∈ pipelineOps lower l hs) (hu : op.unit? = some u) :
+    ∃ fa ∈ l, fa.1.id = some u := by
+  induction l generalizing hs with
+  | nil => cases hop
+  | cons fa rest ih =>
+    simp only [pipelineOps, List.mem_append] at hop
+    rcases hop with h | h
+    · exact ⟨fa, by simp, actOps_units lower fa.1 fa.2 hs op u h hu⟩
+    · obtain ⟨x, hx, hxu⟩ := ih _ h
+      exact ⟨x, List.mem_cons_of_mem _ hx, hxu⟩
+
+/-- A unit id written by the header pipeline is the `id` of one of the filters handed to it. -/
+theorem headerOps_units (fs : List HeaderFilter) (hs : List Rio.Header.Header) (op : TOp) (u : String)
+    (hop : op ∈ headerOps lower fs hs) (hu : op.unit? = some u) : ∃ f ∈ fs, f.id = some u := by
+  obtain ⟨fa, hfa, hid⟩ := pipelineOps_units lower _ hs op u hop hu
+  obtain ⟨f, hf, hfe⟩ := List.mem_filterMap.mp hfa
+  cases h : Rio.Header.createHeaderAction (toHeaderOp f) with
+  | none => simp [h] at hfe
+  | some a =>
+    simp only [h, Option.map_some, Option.some.injEq] at hfe
+    subst hfe
+    exact ⟨f, hf, hid⟩
+
+end
+
+namespace ProbeT
+
+theorem itemOps_units (it : TextItemT) (op : TOp) (u : String) (hop : op ∈ itemOps it)
+    (hu : op.unit? = some u) : it.id = some u := by
+  unfold itemOps textOps at hop
+  cases hid : it.id with
+  | none => cases ha : it.action <;> simp [hid, ha] at hop
+  | some i =>
+    cases ha : it.action <;> simp only [hid, ha, List.mem_singleton] at hop <;> subst hop <;>
+      simp_all [TOp.unit?]
+
+theorem filter_id (it : TextItemT) (data : String) (t : Option UnitTrace) : (it.filter data t).1.1.id = it.id := by
+  unfold TextItemT.filter
+  cases it.action <;> simp <;> split <;> rfl
+
+theorem finish_id (it : TextItemT) : it.finish.1.id = it.id := by
+  unfold TextItemT.finish
+  split <;> rfl
+
+theorem doFilterT_ids (chain : List TextItemT) (data : String) (t : Option UnitTrace) :
+    (doFilterT chain data t).1.1.map (·.id) = chain.map (·.id) := by
+  induction chain generalizing data t with
+  | nil => rfl
+  | cons it rest ih =>
+    simp only [doFilterT]
+    split
+    · simp [filter_id]
+    · simp [filter_id, ih]
+
+theorem doFilterOps_units (chain : List TextItemT) (data : String) (op : TOp) (u : String)
+    (hop : op ∈ doFilterOps chain data) (hu : op.unit? = some u) : some u ∈ chain.map (·.id) := by
+  induction chain generalizing data with
+  | nil => cases hop
+  | cons it rest ih =>
+    simp only [doFilterOps, List.mem_append] at hop
+    rcases hop with h | h
+    · simp [itemOps_units it op u h hu]
+    · split at h
+      · cases h
+      · exact List.mem_cons_of_mem _ (ih _ h)
+
+theorem doEndOps_units (chain : List TextItemT) (data : Option String) (op : TOp) (u : String)
+    (hop : op ∈ doEndOps chain data) (hu : op.unit? = some u) : some u ∈ chain.map (·.id) := by
+  induction chain generalizing data with
+  | nil => cases data <;> cases hop
+  | cons it rest ih =>
+    cases data with
+    | none =>
+      simp only [doEndOps] at hop
+      exact List.mem_cons_of_mem _ (ih _ hop)
+    | some s =>
+      simp only [doEndOps, List.mem_append] at hop
+      rcases hop with h | h
+      · simp [itemOps_units it op u h hu]
+      · exact List.mem_cons_of_mem _ (ih _ h)
+
+/-- A unit id written by the text chain is the `id` of one of its text filters. -/
+theorem chainOps_units (fs : List BodyFilter) (body : String) (op : TOp) (u : String)
+    (hop : op ∈ chainOps (chainOf fs) body) (hu : op.unit? = some u) :
+    ∃ tf, BodyFilter.text tf ∈ fs ∧ tf.id = some u := by
+  have hmem : some u ∈ (chainOf fs).map (·.id) := by
+    unfold chainOps at hop
+    rcases List.mem_append.mp hop with h | h
+    · exact doFilterOps_units _ _ op u h hu
+    · have := doEndOps_units _ _ op u h hu
+      rwa [doFilterT_ids] at this
+  obtain ⟨it, hit, hid⟩ := List.mem_map.mp hmem
+  unfold chainOf at hit
+  obtain ⟨f, hf, hfe⟩ := List.mem_filterMap.mp hit
+  cases f with
+  | text tf =>
+    simp only [Option.some.injEq] at hfe
+    subst hfe
+    exact ⟨tf, hf, hid⟩
+  | html h => cases hfe
+
+end ProbeT
+
 end Rio.Action
